@@ -154,19 +154,9 @@ def small_cfg(rnd, quick):
     f1, f2, f3 = rnd.sample(range(6), 3)
     k["FacePairs"] = {f1 * 6 + f1, f2 * 6 + f3} if quick else {f * 6 + f for f in range(6)} | {f2 * 6 + f3, f3 * 6 + f1}
     est = nrects(k["XsA"], k["YsA"]) * 3.0 * nrects(k["XsB"], k["YsB"]) * 1.5 * len(k["FacePairs"])
-    k["ThinMod"] = max(1, int(round(est / (500 if quick else 4000))))
+    k["ThinMod"] = max(1, int(round(est / (400 if quick else 4000))))
     k["ThinRem"] = rnd.randrange(k["ThinMod"])
     return k
-
-
-def forest_codes(rnd, quick):
-    codes = set()
-    for n in (1, 2, 3, 4):
-        codes |= {n * 1000 + c for c in range(math.factorial(n))}
-    five = list(range(120))
-    pick = rnd.sample(five, 8) if quick else five
-    codes |= {5000 + c for c in pick}
-    return codes
 
 
 def run(ctx):
@@ -185,9 +175,9 @@ def run(ctx):
         "trace direction: nested/disjoint certificates of random regular loops come from their construction with a margin of >= 10% of the radii",
     ]
     ctx.specdir()
-    target = 700 if quick else 4500
+    target = 500 if quick else 2500
 
-    def pairs(k, label, workers=8, timeout=900):
+    def pairs(k, label, workers=12, timeout=1500):
         r = ctx.tlc("Gen_Relations", vlib.cfg(init="InitPair", next_="NextPair", constants=k,
                                               invariants=PAIR_INV + (["PairExact"] if k["CheckAll"] else [])),
                     workers=workers, timeout=timeout, heap="6g")
@@ -224,25 +214,28 @@ def run(ctx):
         pairs(k, "%s pairs" % ("polygon" if multi else "loop"))
 
     # 4. nesting forests: all forests of <= 4 loops, and of 5 loops (quick: a seeded subset), x all
-    #    input orders x two realisations; subdivided/scaled variants on a seeded subset
+    #    input orders x two realisations; plain rectangles (4 vertices: linear vertex search) and
+    #    subdivided ones (>= 10 vertices: vertex search through the loop's index); thorough adds scaled copies
+    def forests(k):
+        r = ctx.tlc("Gen_Relations", vlib.cfg(init="InitForest", next_="NextForest", constants=k, invariants=FOREST_INV),
+                    workers=12, timeout=1500, heap="6g")
+        ctx.replay(r.tagged.get("CASE", []), timeout=1200)
+
+    small = {n * 1000 + c for n in (1, 2, 3, 4) for c in range(math.factorial(n))}
     k = base_constants()
-    k.update({"Codes": forest_codes(rnd, quick), "Reals": {q("gap"), q("diag")}, "Scales": {0}, "Subs": {False},
-              "FBase": rnd.randint(0, 5)})
-    r = ctx.tlc("Gen_Relations", vlib.cfg(init="InitForest", next_="NextForest", constants=k, invariants=FOREST_INV),
-                workers=8, timeout=1200, heap="6g")
-    ctx.replay(r.tagged.get("CASE", []), timeout=1200)
-    if not quick:
-        ctx.exhaustive = "all 153 parent vectors (every forest of <= 5 nodes) x all input orders x 2 realisations"
-    k = base_constants()
-    sub = {n * 1000 + c for n in (2, 3, 4) for c in range(math.factorial(n))}
-    sub |= {5000 + c for c in rnd.sample(range(120), 3 if quick else 30)}
     if quick:
-        sub = set(rnd.sample(sorted(sub), 10))
-    k.update({"Codes": sub, "Reals": {q("gap"), q("diag")}, "Scales": {1} if quick else {1, 2}, "Subs": {True},
-              "FBase": rnd.randint(0, 5)})
-    r = ctx.tlc("Gen_Relations", vlib.cfg(init="InitForest", next_="NextForest", constants=k, invariants=FOREST_INV),
-                workers=8, timeout=1200, heap="6g")
-    ctx.replay(r.tagged.get("CASE", []), timeout=1200)
+        k.update({"Codes": small | {5000 + c for c in rnd.sample(range(120), 5)}, "Reals": {q("gap"), q("diag")},
+                  "Scales": {0}, "Subs": {False, True}, "FBase": rnd.randint(0, 5)})
+        forests(k)
+    else:
+        k.update({"Codes": small | {5000 + c for c in range(120)}, "Reals": {q("gap"), q("diag")},
+                  "Scales": {0}, "Subs": {False}, "FBase": rnd.randint(0, 5)})
+        forests(k)
+        ctx.exhaustive = "all 153 parent vectors (every forest of <= 5 nodes) x all input orders x 2 realisations"
+        k = base_constants()
+        k.update({"Codes": small | {5000 + c for c in rnd.sample(range(120), 24)}, "Reals": {q("gap"), q("diag")},
+                  "Scales": {0, 1, 2}, "Subs": {True}, "FBase": rnd.randint(0, 5)})
+        forests(k)
 
     # 5. trace direction: random large regular loops (and their inverses), laws validated by TLC
     n = 60 if quick else 600
